@@ -14,8 +14,10 @@ behave as the model says is the trusted part, tied to the code by the differenti
 import SophiaProofs.Lemmas.HeapWorld
 import SophiaProofs.Lemmas.HeapX
 import SophiaProofs.Lemmas.HeapSized
+import SophiaProofs.Lemmas.HeapRefine
 import SophiaProofs.Lemmas.StoreQuery
 import SophiaModel.Gen.CloneKind
+import SophiaModel.Gen.MownStrShape
 
 namespace SophiaProofs.C10
 open SophiaModel SophiaModel.Term SophiaModel.Store SophiaModel.Heap SophiaProofs.HeapP SophiaProofs.StoreP
@@ -268,6 +270,51 @@ theorem clone_independent_run {w : World} (inv : WInv w) (ops : List Op) {n : Na
 /-- non-vacuity of the hypotheses: store `1` (a clone) is not named by dropping `0` (its original) -/
 example : (1 : Nat) ∉ opNames (.drop 0) := by decide
 
+/-! ### clones are VALUES: the ownership model refines the value-semantics specification
+
+"A clone has the same content as its original at the time of cloning, and afterwards the two are fully
+independent: mutating, dropping or moving either one never changes what the other returns" — at full strength:
+read through the heap (`World.vview`: every store as a value of the model `SophiaModel.Store` C01's theorems are
+about), the world of stores behaves EXACTLY like a world of values (`VWorld.step`: `clone` copies the value,
+every other operation acts on the named value(s) only, a refused insertion leaves the value as far as it got).
+This is the driver's oracle `o.k.C` as a theorem. -/
+
+/-- one operation -/
+theorem value_semantics_step {w : World} (inv : WInv w) (op : Op) :
+    (World.step .manual w op).1.vview = VWorld.step w.vview op := vview_step inv op
+
+/-- `value_semantics`: after ANY history (manual `Clone`) what every live store returns — its terms, in index
+order, and its rows — is what the value-semantics specification computes for the same history -/
+theorem value_semantics (ops : List Op) : (World.run .manual {} ops).vview = ops.foldl VWorld.step [] := by
+  have key : ∀ (w : World), WInv w → (World.run .manual w ops).vview = ops.foldl VWorld.step w.vview := by
+    induction ops with
+    | nil => intro w _; rfl
+    | cons op ops ih =>
+      intro w inv
+      simp only [World.run, List.foldl_cons] at ih ⊢
+      rw [ih _ (inv.step op), vview_step inv op]
+  exact key {} WInv.init
+
+/-- the refinement of the single functions, for ANY feeding mode: `get_index`, `ensure_index`, `insert`,
+`remove` of the ownership model, read through the heap, ARE the value-level functions -/
+theorem index_refines {h : Heap.Heap} {s : HStore} (inv : IxInv h s.ix) (own : Bool) (q : Quad) (t : Term) :
+    s.ix.getIndex h t = Store.getIndex (s.view h).terms t ∧
+    Store.insert (s.view h) q = ((s.insert own h q).2.1.view (s.insert own h q).1, (s.insert own h q).2.2) ∧
+    Store.remove (s.view h) q = ((s.remove h q).1.view h, (s.remove h q).2) :=
+  ⟨getIndex_refines inv t, insert_refines own q inv, remove_refines q inv⟩
+
+/-- the manual `Clone` is a COPY: the clone's terms, read through the heap, are EXACTLY the original's (not only
+up to `Term::eq`), in the same order -/
+theorem clone_is_copy {h h' : Heap.Heap} {ix ix' : TIndex} (inv : IxInv h ix)
+    (hc : cloneIndex .manual h ix = (h', some ix')) : TIndex.view h' ix' = TIndex.view h ix :=
+  cloneIndex_view inv hc
+
+/-- non-vacuity / sanity: a concrete history evaluated both ways -/
+example : ((World.run .manual {} [.new 0 ⟨0, [], []⟩ 9, .ens 0 (.iri ['a']), .clone 0 1, .ens 1 (.iri ['b']), .drop 0]).vview.map
+      (fun e => (e.1, e.2.terms))) = [(1, [.iri ['a'], .iri ['b']])] ∧
+    (([Op.new 0 ⟨0, [], []⟩ 9, .ens 0 (.iri ['a']), .clone 0 1, .ens 1 (.iri ['b']), .drop 0].foldl VWorld.step []).map
+      (fun e => (e.1, e.2.terms))) = [(1, [.iri ['a'], .iri ['b']])] := by decide
+
 /-! ### the derived `Clone`: the same statement is FALSE -/
 
 def tiShape : Shape := ⟨0, [], []⟩
@@ -362,6 +409,29 @@ theorem cloneKind_is : Gen.cloneKind = .manual := rfl
 /-- … hence, unconditionally, for the `Clone` the source has: every history of store operations is safe -/
 theorem c10_holds_gen (ops : List Op) : Safe (World.run Gen.cloneKind {} ops) := c10_holds cloneKind_is ops
 
+/-- `mownstr_as_modelled`: the five facts about the crate `mownstr` the ownership model is built on — the bytes
+of a `MownStr` live out of line (pointer + length), `Clone` of a borrowed one copies the pointer and of an owned
+one the bytes, `Drop` releases the buffer iff owned, `From<Box<str>>` / `From<String>` take the buffer over
+without copying, `borrowed()` is a pointer copy — are each RECOGNISED IN ITS SOURCE (the version the harness is
+locked to, regenerated on every run: `Gen.mownStr`); a version with, say, inline small strings fails this. -/
+theorem mownstr_as_modelled : Gen.mownStr = MownStrShape.modelled := rfl
+
+/-- growth / rehash of the table, reallocation of the vector, moves, `Box`, `swap`, `take` -/
+def isMove : Op → Bool
+  | .grow _ | .mv _ _ | .box _ | .swap _ _ | .take _ _ => true
+  | _ => false
+
+/-- `moves_keep_buffers`: table growth, moves, Box, swap and take touch no string buffer, allocate nothing and
+release nothing — under either `Clone`, in any world.  In the model this is what "the bytes live out of line"
+(`mownstr_as_modelled`, `outOfLine`) MEANS: these operations move `MownStr` structs (pointer + length), and the
+model's `StrRef`s are such structs; that std's `HashMap` / `Vec` / `Box` move their elements bitwise is the
+remaining assumption (CONFIG.assumptions), supported by the audit after every growth history. -/
+theorem moves_keep_buffers (ck : CloneKind) (w : World) (op : Op) (h : isMove op = true) :
+    (World.step ck w op).1.heap = w.heap := by
+  cases op <;> simp only [isMove, Bool.false_eq_true] at h <;> simp only [World.step] <;> (repeat' split) <;> rfl
+
+example : isMove (.swap 0 1) = true ∧ isMove (.grow 3) = true ∧ isMove (.drop 0) = false := by decide
+
 /-! ### moves: the value is the same, only its name / place changes
 
 `clone_independent` speaks about stores an operation does NOT name.  These are the missing cases of the
@@ -442,15 +512,15 @@ example : ∃ s, (World.run .manual {} [.new 0 ⟨0, [], []⟩ 9, .ens 0 (.iri [
 /-- `ensure_index` on a full index (`len() ≥ MAX`) for a term it does not know: `TermIndexFullError`, the
 index is EXACTLY what it was (in particular no `i2t` entry whose key is gone), and the only effect on the
 heap is that the owned copy made for the lookup is released again -/
-theorem ensure_index_full_refused (max : Nat) (h : Heap.Heap) (ix : TIndex) (t : Term)
-    (hfull : max ≤ ix.i2t.length) (hnew : ix.getIndex (allocTerm h t).1 t = none) :
-    ix.ensureIndex max h t = ((allocTerm h t).1.freeAll (allocTerm h t).2.ownedIds, ix, none) := by
+theorem ensure_index_full_refused (own : Bool) (max : Nat) (h : Heap.Heap) (ix : TIndex) (t : Term)
+    (hfull : max ≤ ix.i2t.length) (hnew : ix.getIndex (allocTerm own h t).1 t = none) :
+    ix.ensureIndex own max h t = ((allocTerm own h t).1.freeAll (allocTerm own h t).2.ownedIds, ix, none) := by
   simp only [TIndex.ensureIndex, hnew, ge_iff_le, hfull, if_true]
 
 /-- … and a known term is still answered when the index is full -/
-theorem ensure_index_known (max : Nat) (h : Heap.Heap) (ix : TIndex) (t : Term) {i : Nat}
-    (hk : ix.getIndex (allocTerm h t).1 t = some i) :
-    ix.ensureIndex max h t = ((allocTerm h t).1.freeAll (allocTerm h t).2.ownedIds, ix, some i) := by
+theorem ensure_index_known (own : Bool) (max : Nat) (h : Heap.Heap) (ix : TIndex) (t : Term) {i : Nat}
+    (hk : ix.getIndex (allocTerm own h t).1 t = some i) :
+    ix.ensureIndex own max h t = ((allocTerm own h t).1.freeAll (allocTerm own h t).2.ownedIds, ix, some i) := by
   simp only [TIndex.ensureIndex, hk]
 
 /-- non-vacuity, on the six-term index the harness uses: six terms fit, the seventh is refused, twice,
@@ -474,15 +544,48 @@ theorem index_sized (ck : CloneKind) (ops : List Op) : ∀ e ∈ (World.run ck {
 
 /-- `audit_key_found`: hence the audit (model of the hook `verif_audit`) never reports "no key for this
 entry": for every entry `i` of every live store after any history the key it compares `i2t[i]` with exists
-and is the `i`-th one.  (That this key has the entry's shape and contains its pointers is `sc_preserved`'s
-`SelfContained` for SOME key of the store; for THIS key it is what the differential compares after every
-operation — a proof needs key uniqueness (C01's I2) carried through the heap model.) -/
+and is the `i`-th one.  (That this key has the entry's shape and contains its pointers: `audit_clean`, manual
+`Clone`.) -/
 theorem audit_key_found (ck : CloneKind) (ops : List Op) : ∀ e ∈ (World.run ck {} ops).stores,
     ∀ i, (hi : i < e.2.ix.i2t.length) → ∃ k, e.2.ix.t2i[i]? = some (k, i) ∧
       e.2.ix.auditEntry i = (k.sameShape e.2.ix.i2t[i], k.sameShape e.2.ix.i2t[i] && insideKey k e.2.ix.i2t[i]) := by
   intro e he i hi
   obtain ⟨k, hk, hg⟩ := keyAt_of_sized ((WSized.init.run ck ops) e he) hi
   exact ⟨k, hg, by simp only [TIndex.auditEntry, hk, List.getElem?_eq_getElem hi]⟩
+
+/-- `audit_clean`: in every world satisfying the invariant — hence (`audit_clean_run`) after EVERY history
+under the manual `Clone`: inserts, refused inserts, removals, growth, clone, clone_from, drops in any order,
+swaps, moves, Box, mem::take — the audit vector of every live store is clean: for EVERY entry `i` the key
+mapped to `i` exists, has the entry's shape, and owns every buffer the entry borrows.  This is exactly what
+the hook `verif_audit` computes on the implementation and check.py compares after every operation (`1*n`).
+Through the manual `Clone` this needs that the lookup `t2i.get_key_value(t)` of the rebuild finds the key at
+the entry's OWN position, i.e. that no two keys are `Term::eq` (`keys_unique`, C01's I2 carried in the heap
+model) and that key `j` and entry `j` read the same term (`IxInv.pair`). -/
+theorem audit_clean {w : World} (inv : WInv w) : ∀ e ∈ w.stores, ∀ p ∈ e.2.ix.audit, p = (true, true) := by
+  intro e he
+  have ii := inv.ix e he
+  exact audit_clean_of (max := e.2.ix.i2t.length) ⟨ii.keys, Nat.le_refl _⟩
+    (ii.pair.imp (fun _ _ _ hp => ⟨hp.1, hp.2.1⟩))
+
+theorem audit_clean_run (ops : List Op) :
+    ∀ e ∈ (World.run .manual {} ops).stores, ∀ p ∈ e.2.ix.audit, p = (true, true) :=
+  audit_clean (WInv.init.run ops)
+
+/-- `keys_unique` (C01's I2 in the heap model): after every history no index holds two keys that are `Term::eq`,
+the `j`-th key is mapped to `j`, and key `j` and entry `j` read — through the heap — the very same term -/
+theorem keys_unique (ops : List Op) : ∀ e ∈ (World.run .manual {} ops).stores,
+    KeysUnique (World.run .manual {} ops).heap e.2.ix.t2i ∧
+    e.2.ix.t2i.map (·.2) = List.range e.2.ix.i2t.length ∧
+    Pointwise (fun (k : TermRef × Nat) t => ∃ x, readTerm? (World.run .manual {} ops).heap k.1 = some x ∧
+      readTerm? (World.run .manual {} ops).heap t = some x) e.2.ix.t2i e.2.ix.i2t := by
+  intro e he
+  have ii := (WInv.init.run ops).ix e he
+  exact ⟨ii.uniq, ii.keys, ii.pair.imp (fun _ _ _ hp => hp.2.2)⟩
+
+/-- non-vacuity: a clone of a clone after the original is gone, with a quoted triple and a case-variant tag -/
+example : ∃ e ∈ (World.run .manual {} [.new 0 ⟨0, [], []⟩ 9, .ens 0 (.lang ['a'] ['e', 'n']), .ens 0 (.lang ['a'] ['E', 'N']),
+    .ens 0 (.triple (.iri ['s']) (.iri ['p']) (.lit [] ['d'])), .clone 0 1, .drop 0, .clone 1 2, .ens 2 (.iri ['z'])]).stores,
+    e.1 = 2 ∧ e.2.ix.audit = [(true, true), (true, true), (true, true)] := by decide
 
 theorem cloneFree_eq : cloneFree = cloneFreeOp := by funext op; cases op <;> rfl
 
@@ -491,9 +594,8 @@ theorem cloneFree_eq : cloneFree = cloneFreeOp := by funext op; cases op <;> rfl
 swaps, moves, Box, mem::take, iteration, on any number of stores — the audit vector of every live store is
 clean: for EVERY entry the key mapped to it exists, has its shape and owns every buffer the entry borrows
 (the `1*n` the driver prints and check.py compares with the hook's answer).  No invariant assumed, no heap
-reasoning.  The full statement (all histories, manual `Clone`) is `sc_preserved` for the weaker
-"SOME key of the same store" + the differential for "THIS key": carrying the pairing through the manual
-`Clone`, which finds the new key by a lookup on content, needs key uniqueness (C01's I2) in the heap model. -/
+reasoning.  The full statement (ALL histories) is `audit_clean_run` for the manual `Clone`; for the derived
+one it is false (`derive_clone_dangles`: the clone is not self-contained). -/
 theorem audit_clean_partial (ck : CloneKind) (ops : List Op) (h : ops.all cloneFree = true) :
     ∀ e ∈ (World.run ck {} ops).stores, ∀ p ∈ e.2.ix.audit, p = (true, true) := by
   rw [cloneFree_eq] at h
@@ -649,28 +751,49 @@ theorem unwrap_unchecked_safe_gen {d : StoreDesc} {s : St}
 
 /-- `ensure_owned_sound` (api/src/term/_simple.rs, the `transmute` of an owned `MownStr` to
 `'static`): whichever branch is taken, the returned string OWNS a buffer that did not exist before
-the call (so it borrows nothing restricted to the argument's lifetime), that buffer is live, and it
+the call (so it borrows nothing restricted to the argument's lifetime), that buffer is live and it
 holds the argument's bytes; the `transmute` branch (`m.is_owned()`) is only reached after the deep
-`clone`, and dropping the argument afterwards releases a DIFFERENT buffer. -/
+`clone`, and dropping the argument afterwards releases a DIFFERENT buffer.
+`ensureOwned` is the function `World.step` runs for EVERY string of EVERY term a store takes in
+(`allocTerm` = `FromTerm::from_term` → `feedStr` → `ensureOwned`), in the branch `World.own` selects. -/
 theorem ensure_owned_sound (h : Heap.Heap) (m : StrRef) (s : Str) (hm : h.deref m = some s)
     (hl : m.owned = true → Live h m.a) :
     let r := ensureOwned h m
     r.2.owned = true ∧ r.2.a = h.cells.size ∧ (m.owned = true → r.2.a ≠ m.a) ∧ Live r.1 r.2.a ∧
-    r.1.deref r.2 = some s ∧ r.1.ub = h.ub := by
-  have hne : m.owned = true → h.cells.size ≠ m.a := fun ho e => by
-    have := (hl ho).lt; omega
-  simp only [ensureOwned, read_of_deref hm]
-  cases ho : m.owned with
-  | true =>
-    simp only [if_true]
-    have hl' : Live (h.alloc s).1 m.a := (hl ho).ext (alloc_ext h s)
-    refine ⟨rfl, rfl, fun _ => hne ho, ?_, ?_, ?_⟩
-    · exact (alloc_live h s).same (free_get_other _ (Ne.symm (hne ho)))
-    · rw [deref_same (h := (h.alloc s).1) (Or.inr (free_get_other _ (Ne.symm (hne ho))))]
-      exact deref_alloc h s
-    · rw [free_ub_of_live hl']; rfl
-  | false =>
-    simp only [Bool.false_eq_true, if_false]
-    exact ⟨rfl, rfl, fun h1 => False.elim h1, alloc_live h s, deref_alloc h s, rfl⟩
+    r.1.deref r.2 = some s ∧ r.1.ub = h.ub :=
+  ensureOwned_spec h m s hm hl
+
+/-- the hypotheses of `ensure_owned_sound` are met at the call site, in both feeding modes (the accessor's
+string dereferences; when it owns its buffer that buffer is live) -/
+example (h : Heap.Heap) (s : Str) :
+    (h.alloc s).1.deref (h.alloc s).2 = some s ∧ ((h.alloc s).2.owned = true → Live (h.alloc s).1 (h.alloc s).2.a) :=
+  ⟨deref_alloc h s, fun _ => alloc_live h s⟩
+
+/-- `ensure_owned_branches_agree`: a string reaching a store through an accessor that returns an OWNED `MownStr`
+(`is_owned` branch: clone + `transmute`, then the argument is dropped) and the same string reaching it through
+an accessor that returns a BORROWED one (copy branch; the caller's buffer goes with the caller's term) leave
+the SAME heap and the SAME `'static` string: the accessor's buffer is released, the result owns the next one. -/
+theorem ensure_owned_branches_agree (h : Heap.Heap) (s : Str) :
+    feedStr true h s = feedStr false h s ∧
+    (feedStr true h s).2 = ⟨true, h.cells.size + 1, s.length⟩ ∧
+    ¬ Live (feedStr true h s).1 h.cells.size := by
+  refine ⟨by rw [feedStr_eq, feedStr_eq], by rw [feedStr_eq], ?_⟩
+  rw [feedStr_eq]
+  exact free_not_live _ _
+
+/-- `from_term_sound`: `SimpleTerm::from_term` (the owned copy `ensure_index` makes of ANY caller's term, in
+either feeding mode): the result owns every one of its strings, in buffers that did not exist before, are live
+and pairwise distinct; it reads the caller's term; nothing that existed before is touched; no UB. -/
+theorem from_term_sound (own : Bool) (h : Heap.Heap) (t : Term) :
+    AllOwned (allocTerm own h t).2.refs ∧ readTerm? (allocTerm own h t).1 (allocTerm own h t).2 = some t ∧
+    (allocTerm own h t).1.ub = h.ub ∧ Ext h (allocTerm own h t).1 ∧ (allocTerm own h t).2.ownedIds.Nodup ∧
+    ∀ a ∈ (allocTerm own h t).2.ownedIds, h.cells.size ≤ a ∧ Live (allocTerm own h t).1 a :=
+  have nk := allocTerm_spec own h t
+  ⟨nk.owned, nk.content, nk.ub, nk.fresh.ext, nk.fresh.nodup, fun a ha => ⟨(nk.fresh.mem.1 ha).1, nk.fresh.live_mem ha⟩⟩
+
+/-- the safety theorems hold for histories that switch the feeding mode at will (`Op.via` is an operation
+of `World.step` like any other): e.g. an index fed through owned-string accessors, cloned, the original dropped -/
+example : Safe (World.run .manual {} [.via true, .new 0 ⟨0, [], []⟩ 9, .ens 0 (.lit ['a'] ['d']), .via false,
+    .ens 0 (.iri ['x']), .clone 0 1, .drop 0, .readAll 1]) := no_dangling _
 
 end SophiaProofs.C10
